@@ -105,12 +105,19 @@ func fsOp(name string, accs []fsAcc) *Thread {
 func fsDone(t *Thread, name string, res string, mutated bool, paths []string, err error) {
 	t.log("fs", name, res)
 	if FSHook != nil {
+		inHook++
 		FSHook(name, paths, mutated, err)
+		inHook--
 	}
 	if mutated && CrashMode {
 		observeDisk(name + " " + strings.Join(paths, " "))
 	}
 }
+
+// inHook > 0 while a hook of the harness runs inside an execution: map iterations of the harness
+// are then not map-range sites of the program (site ordinals must not depend on what a hook
+// happens to compute, e.g. a lazily cached table in the first execution only).
+var inHook int
 
 // OpFault, when set, is asked before every mkdirall / rename / removeall / remove / write / read /
 // create / open of the seam; a non-nil answer is returned to the caller INSTEAD of performing the
@@ -121,6 +128,8 @@ func opFault(op, path string) error {
 	if OpFault == nil {
 		return nil
 	}
+	inHook++
+	defer func() { inHook-- }()
 	return OpFault(op, path)
 }
 
@@ -137,7 +146,9 @@ func observeDisk(after string) {
 	s := Cur
 	tree := ReadTree(".")
 	if CrashHook != nil {
+		inHook++
 		CrashHook(tree, after)
+		inHook--
 	}
 	d := digestOf(tree)
 	Digests[d]++
@@ -236,7 +247,11 @@ func FSRename(a, b string) error {
 	t := fsOp("rename", []fsAcc{{path: a, write: true, subtree: true}, {path: b, write: true, subtree: true}})
 	var err error
 	if RenameFault != nil {
+		inHook++
 		err = RenameFault(a, b) // environment answer decided by the harness (e.g. EXDEV across a device boundary)
+	}
+	if RenameFault != nil {
+		inHook--
 	}
 	if err == nil {
 		err = opFault("rename", b)
@@ -330,7 +345,10 @@ func FSReadFile(p string) ([]byte, error) {
 	}
 	if ReadFault != nil && err == nil {
 		// environment deviation decided by the harness (a read of an existing file that fails)
-		if ferr := ReadFault(p); ferr != nil {
+		inHook++
+		ferr := ReadFault(p)
+		inHook--
+		if ferr != nil {
 			d, err = nil, ferr
 		}
 	}
